@@ -837,6 +837,64 @@ def run_e2e(ctx, objdir):
                        "log": ob["logs"][ti][1][-40:], "dat_tail_hex": ob["dat"][tid][-160:].hex()}, True)
 
 
+FORK_FAIL_PROG = r"""
+#define _GNU_SOURCE
+#include <stdio.h>
+#include <stddef.h>
+#include <unistd.h>
+#include <errno.h>
+#include <sys/prctl.h>
+#include <sys/syscall.h>
+#include <linux/seccomp.h>
+#include <linux/filter.h>
+int foo(int x) { return x + 1; }
+int main(void)
+{
+	struct sock_filter f[] = {
+		BPF_STMT(BPF_LD | BPF_W | BPF_ABS, offsetof(struct seccomp_data, nr)),
+		BPF_JUMP(BPF_JMP | BPF_JEQ | BPF_K, __NR_clone, 3, 0),
+		BPF_JUMP(BPF_JMP | BPF_JEQ | BPF_K, __NR_fork, 2, 0),
+		BPF_JUMP(BPF_JMP | BPF_JEQ | BPF_K, __NR_vfork, 1, 0),
+		BPF_JUMP(BPF_JMP | BPF_JEQ | BPF_K, 435 /* clone3 */, 0, 1),
+		BPF_STMT(BPF_RET | BPF_K, SECCOMP_RET_ERRNO | EAGAIN),
+		BPF_STMT(BPF_RET | BPF_K, SECCOMP_RET_ALLOW),
+	};
+	struct sock_fprog p = { sizeof(f) / sizeof(f[0]), f };
+	foo(1);
+	prctl(PR_SET_NO_NEW_PRIVS, 1, 0, 0, 0);
+	if (prctl(PR_SET_SECCOMP, SECCOMP_MODE_FILTER, &p)) return 7;
+	if (fork() >= 0) return 8;          /* the witness needs a failing fork() */
+	foo(2);
+	return 0;
+}
+"""
+
+
+def fork_window_e2e(ctx, objdir, out):
+    """dedicated end-to-end witness of the fork window: fork() fails in the tracee (EAGAIN), the program ends
+    normally, `uftrace record` never terminates (runs in a side thread; 8 s without an exit = hang)"""
+    try:
+        d = os.path.join(ctx.scratch, "forkwin")
+        os.makedirs(d, exist_ok=True)
+        src, exe, data = os.path.join(d, "fk.c"), os.path.join(d, "fk"), os.path.join(d, "data")
+        open(src, "w").write(FORK_FAIL_PROG)
+        sh(["gcc", "-pg", "-o", exe, src], check=True)
+        rc0, _, _ = sh(["timeout", "10", exe], cwd=d)
+        if rc0 != 0:
+            out["skipped"] = "seccomp witness program does not work here (rc=%d)" % rc0
+            return
+        uft = os.path.join(objdir, "uftrace")
+        t0 = time.time()
+        p = subprocess.run(["timeout", "-s", "KILL", "8", uft, "record", "--no-pager", "--no-event",
+                            "--libmcount-path=" + objdir, "-d", data, exe], capture_output=True, text=True, cwd=d)
+        out["rc"] = p.returncode
+        out["wall"] = round(time.time() - t0, 2)
+        out["hang"] = p.returncode in (137, -9, 124)
+        clean_shm(data)
+    except Exception as ex:           # reported by the caller
+        out["error"] = repr(ex)
+
+
 # ------------------------------------------------------------------ entry points
 def common_meta(ctx):
     ctx.rule = ("(A) store level: a case = one scripted call history (1-27 hook calls, payload specs, buffer "
@@ -870,9 +928,24 @@ def run(ctx):
     common_meta(ctx)
     coq.prove(ctx, "C04")
     objdir = build.get_build("plain", ctx.log)
+    import threading
+    fw = {}
+    th = threading.Thread(target=fork_window_e2e, args=(ctx, objdir, fw))
+    th.start()
     rec_exe = run_store(ctx, objdir)
     run_live(ctx, rec_exe)
     run_e2e(ctx, objdir)
+    th.join()
+    ctx.extra["fork_window_e2e"] = fw
+    if fw.get("error"):
+        ctx.broken("fork-window end-to-end witness failed to run: %s" % fw["error"])
+    elif fw.get("hang"):
+        ctx.tag("e2e:witness-fork-window(record-hangs)")
+        report_known(ctx, "fork-window",
+                     "fork() fails in the tracee (seccomp EAGAIN), the program ends normally: `uftrace record` does not "
+                     "terminate (killed after 8 s; a normal run takes 0.1 s)", {"line": "forkwin", "program": FORK_FAIL_PROG})
+    elif "rc" in fw:
+        ctx.log("fork-window witness: record terminated (rc=%s, %.2fs): the defect no longer reproduces" % (fw["rc"], fw["wall"]))
 
 
 def replay(ctx, obj):
